@@ -108,6 +108,7 @@ class Interp:
         self.pend = self.books[0]["pend"]
         self.depth = []               # number of stacked pending selections at creation
         self.colstep = []             # created by a column slice with step not in (None, 1)
+        self.constructed = set()      # variables built by the RaggedArray constructor: never a pending selection, whatever flag they carry
         self.next_fam = 0
         self.nontrivial = False
         self.executed = 0
@@ -139,7 +140,7 @@ class Interp:
     def refresh(self):
         for w, b in zip(self.worlds, self.books):
             for k, v in enumerate(w.vars[:len(b["pend"])]):
-                now = not v.is_contigous
+                now = (not v.is_contigous) and k not in self.constructed
                 if b["pend"][k] and not now:
                     b["fam"][k] = self.new_family()
                     if b is self.books[0]:
@@ -245,6 +246,11 @@ class Interp:
             if L == 0:
                 return None
             return ["getcol", v, step[2] % L]
+        if op == "reflat":
+            # a second array constructed on (a strided / reversed view of) v's flat buffer; v must be materialised in every world
+            if any(b["pend"][v] for b in self.books) or sum(lens) == 0:
+                return None
+            return ["reflat", v, step[2]]
         return [op, v] + list(step[2:])
 
     # ------------------------------------------------------------ execution in one world
@@ -260,6 +266,15 @@ class Interp:
             return ("obs", norm(r))
         if op == "alias":
             return ("var", x[...] if st[2] == "..." else x[()], True)
+        if op == "reflat":
+            flat = x.ravel()
+            lens = [int(l) for l in x.lengths]
+            if st[2] == "reversed":
+                return ("var", RaggedArray(flat[::-1], lens[::-1]), True)
+            if st[2] == "strided":
+                m = (flat.size + 1) // 2
+                return ("var", RaggedArray(flat[::2], [m // 2, m - m // 2]), True)
+            return ("var", RaggedArray(flat, lens), True)
         if op == "ufunc1":
             k = st[2]
             r = -x if k == "neg" else x + 1 if k == "add1" else x * 2 if k == "mul2" else (x > 1001) if k == "gt" else abs(x) if k == "abs" else np.square(x)
@@ -414,8 +429,10 @@ class Interp:
                 w.add(o[1], alias)
             self.refresh()
             nf = self.new_family()
+            if op == "reflat":
+                self.constructed.add(len(self.books[0]["fam"]))
             for w, b in zip(self.worlds, self.books):
-                cp = not w.vars[-1].is_contigous
+                cp = (not w.vars[-1].is_contigous) and op != "reflat"
                 b["fam"].append(b["fam"][v] if (alias or cp) else nf)
                 b["pend"].append(cp)
             child_pending = self.pend[-1]
